@@ -214,7 +214,7 @@ func (g *G) strExpr(sc scopeInfo, depth int) string {
 	alts = append(alts, `"lit"`, "s", `item.Name`, `names[0]`, `item.ExtraNote`, `root.MetaName`, `root.Col.Name`, `root.Col.Only`)
 	if g.O.Builtins {
 		// the same methods through a value and through a pointer (the method sets of T and *T differ)
-		alts = append(alts, `item.Title()`, `item.Sub.Title()`, `item.Sub.PtrName()`, `root.Items[0].Title()`)
+		alts = append(alts, `item.Title()`, `item.Sub.Title()`, `item.Sub.PtrName()`, `root.Items[0].Title()`, `root.Col.Inner.Name`, `root.Col.Inner.Only`)
 	}
 	if !sc.noLocals {
 		for _, v := range sc.vars {
@@ -270,6 +270,10 @@ func (g *G) boolExpr(sc scopeInfo, depth int) string {
 		for _, v := range sc.vars {
 			alts = append(alts, "isset("+v+")")
 		}
+	}
+	if g.O.Exec && g.O.Builtins && len(g.rets) > 0 {
+		// isset() swallows whatever fails while its argument is evaluated - here a whole template run
+		alts = append(alts, fmt.Sprintf("isset(exec(%q))", g.rets[g.T.Choose(len(g.rets))]))
 	}
 	if depth < 2 && g.T.Choose(5) == 4 {
 		return g.boolExpr(sc, depth+1) + " && " + g.boolExpr(sc, depth+1)
@@ -906,6 +910,15 @@ func TargetClose(form int) string {
 // mark, then state probes of everything the statement must leave untouched.
 func (g *G) targetTry(sc scopeInfo) {
 	g.targetPlaced = true
+	// sometimes a variable named like the catch variable is declared right before the statement (with a
+	// value, or holding nil): it must be what it was afterwards
+	outerE := g.T.Choose(6)
+	switch outerE {
+	case 4:
+		g.act(`e := "outer-e"`)
+	case 5:
+		g.act(`e := nil`)
+	}
 	g.emit(TargetOpen)
 	in := sc.child("TARGET")
 	in.inTry++
@@ -920,6 +933,12 @@ func (g *G) targetTry(sc scopeInfo) {
 	g.probesOn = false
 	g.emit(TargetClose(g.O.CatchForm))
 	g.emit("<ctx:{{.}}><set:" + SetToken + "><content:{{yield content}}><vars:{{s}}{{n}}>")
+	switch outerE {
+	case 4:
+		g.emit("<outer-e:{{e}}>")
+	case 5:
+		g.emit(`<outer-e:{{e = "assigned-after"}}{{e}}>`)
+	}
 }
 
 // file generates one file with the given role.
